@@ -674,6 +674,72 @@ theorem connSynced_run {r : Rules} {venues : Nat → Venue} {c : Conn} {ms : Lis
     exact ih (connSynced_step hc (fun _ _ => hg m (by simp))) (fun x hx => hg x (by simp [hx]))
 
 
+/-! ### a freshly initialised connection satisfies the invariant -/
+
+/-- a connection right after `init`: per instrument `(subscription id, key, snapshot)` a fresh
+sequencer at the snapshot's sequence, the snapshot as the consumer's book. -/
+def Conn.start (insts : List (Nat × Nat × OrderBook)) : Conn :=
+  ⟨⟨insts.map fun x => (x.1, ⟨x.2.1, Sequencer.new x.2.2.sequence⟩)⟩, insts.map fun x => (x.2.1, x.2.2), true⟩
+
+theorem lookup_map_some {α β : Type} (l : List α) (f : α → Nat) (g : α → β) (a : Nat) (y : β)
+    (h : (l.map fun x => (f x, g x)).lookup a = some y) : ∃ x ∈ l, f x = a ∧ g x = y := by
+  induction l with
+  | nil => simp at h
+  | cons x xs ih =>
+    simp only [List.map_cons, List.lookup] at h
+    by_cases ha : a = f x
+    · simp only [ha, beq_self_eq_true, Option.some.injEq] at h
+      exact ⟨x, by simp, ha.symm, h⟩
+    · have : (a == f x) = false := by simpa using ha
+      rw [this] at h
+      obtain ⟨z, hz, h1, h2⟩ := ih h
+      exact ⟨z, by simp [hz], h1, h2⟩
+
+theorem lookup_map_mem {α β : Type} (l : List α) (f : α → Nat) (g : α → β) (x : α) (hx : x ∈ l)
+    (hn : (l.map f).Nodup) : (l.map fun x => (f x, g x)).lookup (f x) = some (g x) := by
+  induction l with
+  | nil => simp at hx
+  | cons z zs ih =>
+    simp only [List.map_cons, List.nodup_cons, List.mem_map, not_exists, not_and] at hn
+    simp only [List.mem_cons] at hx
+    simp only [List.map_cons, List.lookup]
+    rcases hx with hx | hx
+    · subst hx; simp
+    · have hne : f x ≠ f z := fun h => hn.1 x hx h
+      have : (f x == f z) = false := by simpa using hne
+      rw [this]; exact ih hx hn.2
+
+theorem eq_of_nodup_map {α : Type} (l : List α) (f : α → Nat) (hn : (l.map f).Nodup) (x y : α)
+    (hx : x ∈ l) (hy : y ∈ l) (h : f x = f y) : x = y := by
+  induction l with
+  | nil => simp at hx
+  | cons z zs ih =>
+    simp only [List.map_cons, List.nodup_cons, List.mem_map, not_exists, not_and] at hn
+    simp only [List.mem_cons] at hx hy
+    rcases hx with hx | hx <;> rcases hy with hy | hy
+    · rw [hx, hy]
+    · subst hx; exact absurd h.symm (hn.1 y hy)
+    · subst hy; exact absurd h (hn.1 x hx)
+    · exact ih hn.2 hx hy
+
+theorem connSynced_start (venues : Nat → Venue) (insts : List (Nat × Nat × OrderBook))
+    (hkey : (insts.map (·.2.1)).Nodup)
+    (h : ∀ x ∈ insts, SortedBook x.2.2 ∧ GenuineSnapshot (venues x.1) x.2.2.sequence x.2.2) :
+    ConnSynced venues (Conn.start insts) := by
+  constructor
+  · intro a a' im im' h1 h2 hk
+    obtain ⟨x, hx, hxa, hxm⟩ := lookup_map_some insts (·.1) _ a im h1
+    obtain ⟨y, hy, hya, hym⟩ := lookup_map_some insts (·.1) _ a' im' h2
+    have : x = y := eq_of_nodup_map insts (·.2.1) hkey x y hx hy (by rw [← hxm, ← hym] at hk; exact hk)
+    rw [← hxa, ← hya, this]
+  · intro a im h1
+    obtain ⟨x, hx, hxa, hxm⟩ := lookup_map_some insts (·.1) _ a im h1
+    refine ⟨x.2.2, ?_, ?_⟩
+    · rw [← hxm]; exact lookup_map_mem insts (·.2.1) (·.2.2) x hx hkey
+    · obtain ⟨hs, hg⟩ := h x hx
+      rw [← hxm, ← hxa]
+      exact ⟨hs, rfl, hg.2.1, hg.2.2⟩
+
 /-! ## per-message view = whole stream through `with_termination_on_error` -/
 
 theorem terminate_append (a b : List Out) :
